@@ -2,6 +2,7 @@ package main
 
 import (
 	"fmt"
+	"sort"
 	"strings"
 )
 
@@ -54,6 +55,9 @@ func c11GenRun(r *Rng) string {
 		for i := range ticks {
 			if r.Chance(85) {
 				t := genEmit(r, true, r.Chance(20))
+				if r.Chance(40) { // the handler echoes what it saw as InputMetadata
+					t = fmt.Sprintf("E%d:%s", r.Intn(2), Pick(r, []string{"i0", "i1", "c7", "c"}))
+				}
 				if r.Chance(35) {
 					t = fmt.Sprintf("l%d;", r.Intn(50)) + t
 				}
@@ -100,7 +104,24 @@ func c11GenRun(r *Rng) string {
 				ins = append(ins, "x")
 				break
 			}
-			ins = append(ins, ik+":"+genVals(r, 3))
+			in := ik + ":" + genVals(r, 3)
+			if r.Chance(40) { // the client's own metadata on the input batch (sorted, unique, no transport keys)
+				set := map[string]string{}
+				for j := r.Range(1, 3); j > 0; j-- {
+					set[Pick(r, []string{"if_none_match", "k", "a", "b", "vgi_pushdown_filters", "ключ", "vgi_rpc.cancel2", "zz"})] = Pick(r, metaValues)
+				}
+				ks := make([]string, 0, len(set))
+				for k := range set {
+					ks = append(ks, k)
+				}
+				sort.Strings(ks)
+				ps := make([]string, len(ks))
+				for j, k := range ks {
+					ps[j] = hx(k) + "=" + hx(set[k])
+				}
+				in += ":" + strings.Join(ps, ";")
+			}
+			ins = append(ins, in)
 		}
 		if len(ins) > 0 {
 			inputs = strings.Join(ins, ",")
